@@ -225,7 +225,7 @@ func RunSeq(s *kernel.Sim, prof *Profile) *Env {
 	return e
 }
 
-var dashRow = regexp.MustCompile(`(?s)<tr>\s*<td>(.*?)</td>`)
+var dashRow = regexp.MustCompile(`(?s)<td>(.*?)</td>`) // any cell: the layout is not the property's business
 
 // dashboard fetches the HTML listing at / as c: it shows metadata, so it is
 // bound by the same rule as list - exactly the secrets on which the caller
@@ -265,7 +265,7 @@ func (e *Env) dashboard(c *Caller) {
 			e.fail("list", "caller %d GET /: the HTML listing shows secret %q, on which the caller holds no info grant (rules %v)", c.ID, n, c.Rules)
 		}
 	}
-	if bytes.Contains(body, []byte("<th>Name</th><th>Versions</th>")) {
+	if bytes.Contains(body, []byte("<th>Name</th>")) {
 		for _, n := range sortedBoolKeys(want) {
 			if !shown[n] {
 				e.fail("list", "caller %d GET /: the HTML listing lacks secret %q, on which the caller holds info", c.ID, n)
